@@ -246,7 +246,9 @@ PI = z3.Real('pi')
 
 
 def uf(name, *args):
-    return UF[name](*[toreal(a) if UF[name].domain(i) == R else tonum(a) for i, a in enumerate(args)])
+    # arguments are put in sum-of-monomials normal form so that equal arguments are recognised by linear reasoning over monomials
+    conv = [toreal(a) if UF[name].domain(i) == R else tonum(a) for i, a in enumerate(args)]
+    return UF[name](*[z3.simplify(c, som=True) if z3.is_real(c) else c for c in conv])
 
 
 def mk_sqrt(x):
